@@ -1002,6 +1002,33 @@ def check_mixed(acc):
     acc.sample({"mixed-type columns": True, "values": jv(MIXED)}, "mixed")
 
 
+SORT_TEXT = ["a", "z", "A", "~", "\x7f", "\x80", "\xe9", "\xfc", "\xf1", "\xff"]
+
+
+def check_sorted_text(acc):
+    """reverse sorting of a text column whose one-character values lie on both sides of the ASCII / Latin-1 boundary (no
+    value is a prefix of another): every table of two or three distinct values, alone and as the second sort key"""
+    for n in (2, 3):
+        for vals in itertools.permutations(SORT_TEXT, n):
+            rows = [(v, i % 2) for i, v in enumerate(vals)]
+            case = {"part": "sorted_text", "values": list(vals)}
+            acc.case(case, nontrivial=True)
+            t = mk(["s", "k"], rows)
+            for columns, reverse in (("s", "s"), (["k", "s"], "s"), (["s"], None), (["k", "s"], ["k", "s"])):
+                keys = m_sort_columns(["s", "k"], columns, reverse)
+                want = m_sorted(["s", "k"], rows, keys)
+                try:
+                    got = [tuple(py(x)) for x in t.sorted(columns=columns, reverse=reverse).array.tolist()]
+                except Exception as e:  # noqa: BLE001
+                    acc.fail(f"sorted: raised {type(e).__name__} [text beyond ASCII]", dict(case, columns=columns, reverse=reverse), {"error": str(e)[:200]})
+                    continue
+                acc.outcome(("sorted_text", reverse is not None, got == want))
+                if got != want:
+                    acc.fail("sorted: row order [" + ("reverse on a str column" if reverse else "no reverse") + "; one-character values beyond ASCII]",
+                             dict(case, columns=columns, reverse=reverse), {"got": jv(got), "want": jv(want)})
+    acc.sample({"sorted text": True, "values": SORT_TEXT}, "sorted_text")
+
+
 def check_rt(acc, header, rows, case):
     for conf in DELIMITED:
         rt_delimited(acc, header, rows, conf, case)
@@ -1054,6 +1081,7 @@ def shards(tier, seed):
             out.append({"part": "rt", "domain": "tiny", "rows": 2, "cols": 3, "chunk": c, "of": nch})
     out.append({"part": "rtheaders"})
     out.append({"part": "mixed"})
+    out.append({"part": "sorted_text"})
     return out
 
 
@@ -1093,6 +1121,8 @@ def run_shard(spec, acc):
             acc.sample({"header": h, "rows": jv(rows), "configs": [c[0] for c in DELIMITED] + EXACT}, f"rt{spec['rows']}x{spec['cols']}")
     elif part == "mixed":
         check_mixed(acc)
+    elif part == "sorted_text":
+        check_sorted_text(acc)
     elif part == "rtheaders":
         for h in RT_HEADERS:
             for ncols in (1, 2, 3):
@@ -1114,6 +1144,8 @@ def replay(case):
         check_pair(acc, case["family"], [tuple(r) for r in case["rows1"]], [tuple(r) for r in case["rows2"]])
     elif part == "mixed":
         check_mixed(acc)
+    elif part == "sorted_text":
+        check_sorted_text(acc)
     else:
         rows = [tuple(unj(v) for v in r) for r in case["rows"]]
         check_rt(acc, case["header"], rows, {"part": "rt", "header": case["header"], "rows": case["rows"]})
